@@ -42,9 +42,11 @@ pub fn simplify_case_a(c: &CaseA) -> Vec<CaseA> {
     out
 }
 
-pub fn report_a(case: &CaseA, mode: Mode, nontrivial: impl Fn(&std::collections::BTreeSet<&'static str>) -> bool) -> CaseReport {
+pub fn report_a(owner: &'static str, case: &CaseA, mode: Mode, nontrivial: impl Fn(&std::collections::BTreeSet<&'static str>) -> bool) -> CaseReport {
+    crate::enga::set_owner(Some(owner));
     let out = run_case(case, mode);
-    CaseReport { nontrivial: nontrivial(&out.classes), classes: out.classes, viol: out.viol }
+    crate::enga::set_owner(None);
+    CaseReport { nontrivial: nontrivial(&out.classes), classes: out.classes, viol: out.viol.or(out.foreign) }
 }
 
 pub fn scale(tier: Tier, quick: u64, thorough: u64) -> u64 {
